@@ -6,13 +6,19 @@ when the reference tree changes deliberately."""
 import ast, json, sys
 from pathlib import Path
 sys.path.insert(0, str(Path(__file__).resolve().parent.parent))
-from sa.core import DEFAULT_ROOT, PACKAGE, _iter_defs, _def_key, _param_args, PINNED_PARAMS_FILE
-table, count = {}, {}
+from sa.core import (DEFAULT_ROOT, PACKAGE, _iter_defs, _def_key, _param_args,
+                     PINNED_PARAMS_FILE, PINNED_FUNCS_FILE,
+                     function_fingerprint)
+table, count, fps = {}, {}, {}
 for p in sorted((DEFAULT_ROOT / PACKAGE).rglob("*.py")):
     for cls, f in _iter_defs(ast.parse(p.read_text())):
         k = _def_key(cls, f.name)
         count[k] = count.get(k, 0) + 1
         table[k] = [a.arg for a in _param_args(f)]
+        fps[k] = function_fingerprint(f)
 table = {k: v for k, v in sorted(table.items()) if count[k] == 1 and v}
 PINNED_PARAMS_FILE.write_text(json.dumps(table, indent=0))
 print(len(table), "signatures")
+fps = {k: v for k, v in sorted(fps.items()) if count[k] == 1}
+PINNED_FUNCS_FILE.write_text(json.dumps(fps, indent=0))
+print(len(fps), "fingerprints")
